@@ -485,3 +485,37 @@ pub struct ReplayFile {
     pub what: String,
     pub case: Value,
 }
+
+/// Give this process (and the children it spawns) a private network namespace with its own loopback, so that
+/// concurrently running worker processes can never receive each other's datagrams through recycled ephemeral
+/// ports. Returns false if the kernel refuses (the checks still run, sharing the host's loopback).
+pub fn isolate_network() -> bool {
+    #[repr(C)]
+    struct IfReq {
+        name: [libc::c_char; 16],
+        flags: libc::c_short,
+        pad: [u8; 22],
+    }
+    if std::env::var("RV_NO_NETNS").is_ok() {
+        return false;
+    }
+    unsafe {
+        if libc::unshare(libc::CLONE_NEWNET) != 0 {
+            return false;
+        }
+        let fd = libc::socket(libc::AF_INET, libc::SOCK_DGRAM, 0);
+        if fd < 0 {
+            return false;
+        }
+        let mut ifr = IfReq { name: [0; 16], flags: 0, pad: [0; 22] };
+        ifr.name[0] = b'l' as libc::c_char;
+        ifr.name[1] = b'o' as libc::c_char;
+        let mut ok = libc::ioctl(fd, libc::SIOCGIFFLAGS as _, &mut ifr as *mut IfReq) == 0;
+        if ok {
+            ifr.flags |= (libc::IFF_UP | libc::IFF_RUNNING) as libc::c_short;
+            ok = libc::ioctl(fd, libc::SIOCSIFFLAGS as _, &ifr as *const IfReq) == 0;
+        }
+        libc::close(fd);
+        ok
+    }
+}
